@@ -137,6 +137,7 @@ def run_c04(ctx):
             if paths[i]:
                 neg.append((ver, i, leaves[i], paths[i] + paths[i][:w], root, False, "added path element"))
             neg.append((ver, i, leaves[i], paths[i] + b"\x01", root, None, "ragged path"))
+            neg.append((ver, i, leaves[i], paths[i] + bytes(r.choice([4, w // 2, w - 4, w - 1])), root, None, "ragged path"))
     lines = ["mroot %s %d %s %s" % (v, i, rt.hx(l), rt.hx(p)) for v, i, l, p, _, _, _ in neg]
     impl = vlib.run_impl(lines)
     model = vlib.run_model(lines)
@@ -150,6 +151,8 @@ def run_c04(ctx):
             ctx.violation("property", "genuine (leaf, index, path) does not recompute the signed root", rep)
         elif expect is False and got:
             ctx.violation("property", "%s recomputes the signed root" % what, rep)
+        elif expect is None and got:
+            ctx.violation("property", "a path with a trailing partial element (length not a multiple of the node length) recomputes the signed root: a changed / added path element is accepted", rep)
         elif expect is None and li != "PANIC":
             ctx.note("ragged path no longer rejected by assertion: " + li[:80])
         if li != lm:
